@@ -679,10 +679,15 @@ func pickTs(r *h.Rng) *int64 {
 }
 
 // genText builds a text/plain or OpenMetrics payload plus the expectations of its convertible histograms.
-func genText(c *h.Ctx, om bool) ([]byte, []string) {
+// skipCreated: the inner OpenMetrics parser swallows `_created` lines (WithOMParserSTSeriesSkipped), so
+// such a line does not end a collation.
+func genText(c *h.Ctx, om, skipCreated bool) ([]byte, []string) {
 	r := c.Rng
 	var sb strings.Builder
 	var gens []string
+	// length of the payload right after the series of the histogram of the last `gen` line, as long as
+	// nothing the NHCB parser sees follows it (-1 otherwise): that histogram is still being collated.
+	genPendingLen := -1
 	nfam := 1 + r.Intn(4)
 	used := map[string]bool{}
 	prevKey := ""
@@ -757,6 +762,7 @@ func genText(c *h.Ctx, om bool) ([]byte, []string) {
 				continue
 			}
 			for k, ls := range all {
+				before := sb.Len()
 				for _, l := range ls {
 					sb.WriteString(l.render(om) + "\n")
 				}
@@ -769,14 +775,27 @@ func genText(c *h.Ctx, om bool) ([]byte, []string) {
 				if cl.hasSum {
 					nser++
 				}
+				if genPendingLen == before && nser == 0 && (len(ls) == 0 || skipCreated) {
+					genPendingLen = sb.Len() // at most a swallowed `_created` line was added
+				}
 				if cl.valid && !noType && nser > 0 && key != prevKey {
 					gens = append(gens, cl.genLine(cl.ts))
 					c.Count("gen:classic")
+					genPendingLen = sb.Len()
+					if cl.st != 0 && !skipCreated {
+						genPendingLen = -1 // the `_created` series has ended the collation
+					}
 				}
 				prevKey = key
 				if r.Chance(10) { // a stray series of the same family between label sets
+					pending := genPendingLen == sb.Len()
 					fmt.Fprintf(&sb, "%s_bucket 3\n", name)
 					prevKey = ""
+					if pending && len(cl.lbl) == 0 {
+						// same name and (empty) label set as the histogram before it: passed through
+						// (no le), but it does not end the collation
+						genPendingLen = sb.Len()
+					}
 				}
 			}
 		} else {
@@ -797,6 +816,13 @@ func genText(c *h.Ctx, om bool) ([]byte, []string) {
 		}
 	}
 	if r.Chance(3) {
+		// A parse error ends the stream: the wrapped parser hands the error on at once, the histogram
+		// still being collated at that point is never converted (the scrape fails as a whole), so it
+		// must not be expected.
+		if len(gens) > 0 && genPendingLen == sb.Len() {
+			gens = gens[:len(gens)-1]
+			c.Count("gen:pending-at-error")
+		}
 		sb.WriteString("this is {not a metric\n")
 		c.Count("gen:garbage")
 	}
@@ -1216,13 +1242,13 @@ func main() {
 		switch k := r.Intn(10); {
 		case k < 3:
 			cf.src = "text"
-			payload, gens = genText(c, false)
+			payload, gens = genText(c, false, false)
 		case k < 6:
 			cf.src = "om"
 			if !cf.st {
 				cf.src = "omk"
 			}
-			payload, gens = genText(c, true)
+			payload, gens = genText(c, true, cf.src == "om")
 		case k < 7:
 			cf.src = "proto"
 			payload, gens = genProto(c)
